@@ -167,17 +167,26 @@ func runAuth(c *vh.Ctx, cs Case) {
 	}
 	obs := vh.Err("(N * Z * bool)")
 	if accepted {
-		obs = vh.Ok(fmt.Sprintf("(%s, %s, %s)", vh.BytesAsN(tok.PeerId[:]), vh.ZU(tok.Timestamp), vh.Bool(tok.IsRelayer)))
+		obs = vh.Ok(fmt.Sprintf("(%s, %s, %s)", HN(tok.PeerId[:]), vh.ZU(tok.Timestamp), vh.Bool(tok.IsRelayer)))
 	}
-	term := vh.App("CAuth", vh.BytesAsN(net), vh.BytesAsN(rcp), vh.Bytes(msg), vh.ZI(cs.Timeout), vh.ZI(now),
-		vh.Nat(hlen), vh.BytesAsN(hh[:]), vh.BytesAsN(idk), vh.BytesAsN(pid),
-		vh.BytesAsN(idk), vh.BytesAsN(hh[:]), vh.BytesAsN(vs), vh.Bool(ver), obs)
+	term := vh.App("CAuth", HN(net), HN(rcp), HB(msg), vh.ZI(cs.Timeout), vh.ZI(now),
+		vh.Nat(hlen), HN(hh[:]), HN(idk), HN(pid),
+		HN(idk), HN(hh[:]), HN(vs), vh.Bool(ver), obs)
 	if cs.Kind == "mutation-oracle-only" {
 		term = ""
 	}
 	reachedCore := okLen && okRcp && okSkew && okSelf
 	c.Case("auth/"+cs.Kind, fmt.Sprintf("%s|%s|%s|%d|%d", cs.Net, cs.Rcp, cs.Msg, cs.Timeout, now), reachedCore, cs, term)
 }
+
+// one hexadecimal literal per byte string / big number (see coq/Model/HexLit.v)
+func HB(b []byte) string {
+	if len(b) == 0 {
+		return "(@nil N)"
+	}
+	return "(hb 0x" + hex.EncodeToString(b) + "%huint)"
+}
+func HN(b []byte) string { return "(hn 0x" + hex.EncodeToString(b) + "%huint)" }
 
 func bigOf(s string) *big.Int {
 	v, ok := new(big.Int).SetString(s, 10)
@@ -411,11 +420,15 @@ func scenario(c *vh.Ctx, mutateAll bool, modelMutations bool) {
 		v.Kind, v.Msg = "extreme-ts", hx(ownMessage(s, ts, rcp[:], flag, 73))
 	case 8: // same message, clock moved to the boundary of the window
 		at := t
-		if at <= 0 || at > 1<<40 {
+		if at <= 0 || at > 1_000_000 {
 			at = 10
 		}
 		shift := []int64{at, -at, at + 1, -at - 1, at - 1, -at + 1}[r.Intn(6)]
-		v.Kind, v.NowNano = "clock-boundary", (now+d+shift)*1e9+subSecond[r.Intn(len(subSecond))]
+		sec := now + d + shift
+		if sec > 8_000_000_000 || sec < -8_000_000_000 { // outside what the mock clock can reach
+			sec = now + shift
+		}
+		v.Kind, v.NowNano = "clock-boundary", sec*1e9+subSecond[r.Intn(len(subSecond))]
 	case 9: // replay to a later time
 		v.Kind, v.NowNano = "replay-later", nn+int64(r.Range(1, 100000))*1e9
 	case 10: // random bytes of the right length
@@ -509,7 +522,7 @@ func main() {
 		scenario(c, false, false)
 	}
 	m := c.Scale(60, 1500) // accepted messages whose 137 mutations are all run on the implementation
-	mm := c.Scale(8, 100)  // ... of which this many also go through the model
+	mm := c.Scale(4, 100)  // ... of which this many also go through the model
 	for i := 0; i < m; i++ {
 		scenario(c, true, i < mm)
 	}
